@@ -2,7 +2,11 @@
 
 Model: lean/Ladybug/Model/Sun.lean (generic over Transc; Float instance run by drv_c05, real instance
 in Ladybug/RealInst.lean); theorems: lean/Ladybug/Props/C05.lean.
-Tie: correspondence (C) on the ops below.  Numeric property, partial by nature (DESIGN.md sections 6, 9):
+Tie: (T) tools/extract/sun_formulas.py regenerates Gen/SunFormulas.lean from sunpath.py (NOAA series, solar time,
+hour angle, zenith/altitude, refraction branches, az_init, azimuth branches and handlers, Sun properties) and
+Proofs/C05Gen.lean proves each generated piece equal to the model definition; (C) correspondence on the ops below
+(the only tie for the day count, the day-fraction rounding, int()/round() of float hours, the setters, the exception
+conditions, float %, the sun vector).  Numeric property, partial by nature (DESIGN.md sections 6, 9):
 closeness to the independent ephemeris, time-zone shift invariance and the noon claim on the real code
 are SAMPLED SUB-CLAIMS (tests), reported under sampled_subclaims, never counted as theorems.
 
@@ -18,8 +22,8 @@ from harness import core
 from harness.core import err_name, run_oracle_cases
 
 PROP = 'C05'
-PROOF_MODULES = ['Ladybug.Props.C05']
-GREP_MODULES = ['Ladybug.Py', 'Ladybug.Transc', 'Ladybug.RealInst', 'Ladybug.Model.Cal', 'Ladybug.Model.Sun',
+PROOF_MODULES = ['Ladybug.Props.C05', 'Ladybug.Proofs.C05Gen']
+GREP_MODULES = ['Ladybug.Gen.SunFormulas', 'Ladybug.Py', 'Ladybug.Transc', 'Ladybug.RealInst', 'Ladybug.Model.Cal', 'Ladybug.Model.Sun',
                 'Ladybug.Proofs.CalLemmas', 'Ladybug.Props.C08', 'Ladybug.Proofs.C05Real', 'Ladybug.Proofs.C05Lemmas', 'Ladybug.Drv.C05', 'Ladybug.DrvCore']
 RULE = ('correspondence: Float instance of the model vs the real functions at the public API '
         '(calculate_sun, _from_hoy, _from_moy, _from_date_time -> datetime, altitude, azimuth, sun_vector, '
@@ -36,6 +40,8 @@ RULE = ('correspondence: Float instance of the model vs the real functions at th
         'entry points; tz+clock shift within 0.01 deg; solar noon due south/north and highest; vector identities '
         'within 1e-12')
 TRUSTED_BASE = [
+    'translator tools/extract/pyexpr2lean.py + sun_formulas.py: that the emitted Lean expression denotes the Python '
+    'expression (every generated piece is also run by the driver through the model it is proved equal to)',
     'modelled, not verified: CPython float arithmetic and libm (sin cos tan asin acos pow sqrt floor) = Lean Float '
     'primitives on this machine (compared: the model is bit-identical to the code on every generated case); '
     'round(m/1440.0, 2) and int()/round() of float hours modelled on integers/rationals and compared exhaustively',
@@ -53,6 +59,14 @@ ASSUMPTIONS = ['years 2016 (leap) / 2017 (normal) as fixed by ladybug DateTime',
                'zones further than 1 h away are the known finding C05-solar-time-depends-on-time-zone)']
 
 TOL = 1e-9
+
+
+def extract(ctx):
+    """(T) regenerate Gen/SunFormulas.lean from sunpath.py; Proofs/C05Gen.lean proves every generated piece equal
+    to its definition in Model/Sun.lean."""
+    from tools.extract import sun_formulas
+    ctx.sun_gen = sun_formulas.extract()
+    ctx.count('translated_pieces', len(ctx.sun_gen['translated']))
 
 
 # ---------------------------------------------------------------------------------------------
@@ -809,5 +823,6 @@ LEVEL_TEXT = ('Machine-checked Lean 4 theorems over the real-number instance of 
 LEVEL_NOTE = ('Trusted: Lean kernel; axioms propext/Classical.choice/Quot.sound only; correspondence on generated '
               'inputs only; IEEE/libm vs real arithmetic not proved; ladybug_geometry rotations transcribed; the '
               'independent ephemeris of the harness is the reference of the sampled sub-claim.')
-TECHNIQUE = ('Lean 4 proof over R (Mathlib trigonometry: sin^2+cos^2, arccos range, floor) about a polymorphic model '
-             'tied to sunpath.py by differential correspondence of its Float instance; sampled ephemeris comparison')
+TECHNIQUE = ('regenerated Lean definitions of the sunpath.py formulas proved equal to the model (rfl); Lean 4 proof over R (Mathlib trigonometry: sin^2+cos^2, arccos range, floor) about a polymorphic model '
+             'tied to sunpath.py by the translator and by differential correspondence of its Float instance; sampled '
+             'ephemeris comparison')
